@@ -512,7 +512,7 @@ def check_sparse_merge(ctx, rng, rows_up=None, rows_down=None, n_per=None,
     from cell_type_mapper.utils.utils import choose_int_dtype
     if rows_up is None:
         n_genes = rng.choice([1, 5, 40, 300])
-        n_pairs = rng.choice([1, 2, 7, 8, 9, 16, 17, 25, 40])
+        n_pairs = rng.choice([1, 2, 7, 8, 9, 16, 17, 25, 40, 90, 105])
         n_per = rng.choice([8, 8, 16, 24])
 
         def rrow():
